@@ -294,3 +294,40 @@ def stage_compatible(spec, lib):
     if name == "AddEnclosing":
         return all_str or spec["enclose_integers"] or True
     return True
+
+
+# ---------------------------------------------------------------------------------------------
+# History independence of middleware instances: an instance that has already transformed another
+# library must behave like a fresh one (stacks are routinely reused for many files).
+# ---------------------------------------------------------------------------------------------
+
+
+def decoy_library():
+    return Library([
+        String("decoy", '"Decoy Value"', 0, "@string{decoy = ...}"),
+        String("s", '"decoy s"', 1, "@string{s = ...}"),
+        Entry("article", "decoy1", [Field("author", "Decoy One and Zed, Y.", 3), Field("title", "{Decoy \\'e $x$}", 4), Field("month", "feb", 5),
+                                    Field("year", "1066", 6), Field("Title", "s", 7), Field("z", "decoy", 8), Field("a", '"q"', 9)], 2, "@article{decoy1,...}"),
+        ExplicitComment("decoy comment", 10, "@comment{decoy comment}"),
+        Entry("book", "decoy2", [Field("month", 11, 12), Field("editor", "X", 13)], 11, "@book{decoy2,...}"),
+        ImplicitComment("% decoy", 14, "% decoy"),
+        Preamble("decoy", 15, "@preamble{decoy}"),
+    ])
+
+
+def preuse(mw):
+    """Let the middleware instance transform an unrelated library first (errors ignored)."""
+    try:
+        mw.transform(decoy_library())
+    except Exception:
+        pass
+    return mw
+
+
+def maybe_preuse(mw, key):
+    """Deterministically pre-use the instance for half of the cases (key: any hashable/JSON-able case identity)."""
+    import zlib
+
+    if zlib.crc32(repr(key).encode()) % 2 == 0:
+        return preuse(mw)
+    return mw
